@@ -18,7 +18,7 @@ import tempfile
 ROOT = os.path.dirname(os.path.dirname(os.path.abspath(__file__)))
 RT_PYTHON = os.environ.get('PYVC_RT_PYTHON', '/venv/bin/python')
 OUT_OF_REACH = 'approximate,clusters,treebandit'
-BOUNDED_ONLY = {'C12', 'C15', 'C16'}      # no contract within reach of the prover: decided by the bounded leg only
+BOUNDED_ONLY = {'C12', 'C15'}      # no contract within reach of the prover: decided by the bounded leg only
 HAS_RT = {'C15', 'C16', 'C01', 'C02', 'C03', 'C04', 'C05', 'C06', 'C07', 'C08', 'C09', 'C10', 'C11', 'C12', 'C13', 'C14', 'C17', 'C18',
           'C19', 'C20'}
 
